@@ -51,7 +51,8 @@ inductive MaskMode where
       read from the value the register had BEFORE the instruction (`oldVCC := state.VCC()`) -/
   | fresh
   /-- `vcc := state.VCC()` … `vcc |= 1<<i` / `vcc &^= 1<<i` … `SetVCC(vcc)`: inactive lanes' bits are kept;
-      a carry-in is bit `i` of the SAME variable (CDNA3 `v_addc/v_subb`) -/
+      a carry-in is bit `i` of the SAME variable (CDNA3 `v_addc/v_subb` until they were repaired to
+      `fresh`: the ISA writes 0 for inactive lanes) -/
   | inplace
 deriving DecidableEq, Repr
 
@@ -167,7 +168,8 @@ def hAdd : Handler Unit :=
   { f := fun _ a => { writes := [(2, u32 (a.regs 0 + a.regs 1))], bit := decide (a.regs 0 + a.regs 1 > 4294967295), loads := [], stores := [] }
     mask := .fresh }
 
-/-- `v_addc_co_u32 v2, vcc, v0, v1, vcc`; GCN3 builds a fresh VCC from `oldVCC`, CDNA3 updates in place.
+/-- `v_addc_co_u32 v2, vcc, v0, v1, vcc`; both ALUs build a fresh VCC from `oldVCC` (CDNA3 updated in place
+    before its repair; `hAddc .inplace` is that old behaviour).
     The carry-out is `src0 + src1 + carry > 0xFFFFFFFF` in both ALUs (the GCN3 handler used to compute
     `src0 > MaxUint32 - carry - src1` in `uint64`, which wrapped for `src1 = 0xffffffff` with carry-in 1;
     repaired by a `fix:` commit found by C03's vector module). -/
